@@ -24,6 +24,7 @@ from renormalizer.tn import TTNS, TTNO, BasisTree, TreeNodeBasis
 from renormalizer.tn.tree import from_mps
 
 TOL = 1e-9
+ZERO_SKIPS = [0]      # canonicalise/compress checks skipped because the operator annihilates the random state
 
 # ---- witness contract of the factorisations used by canonicalise / compress (hypothesis of ttns_push_preserves,
 # ttns_push_child_preserves): every logged svd_qn call must satisfy  M = Q . V^T  (QR mode)  resp.  M = U.diag(s).V^T
@@ -347,7 +348,10 @@ def run_spec(spec):
         chk("ttno-dense", lambda: close(np.asarray(ttno.todense(order)), O))
         chk("apply", lambda: close(L.dense(ttno.apply(a)).ravel(), O @ da.ravel()))
         chk("apply-complex", lambda: close(L.dense(ttno @ ac).ravel(), O @ dac.ravel()))
-        chk("apply-cano", lambda: close(L.dense(ttno.apply(a, canonicalise=True)).ravel(), O @ da.ravel()))
+        if np.linalg.norm(O @ da.ravel()) > 1e-8:       # the zero vector cannot be canonicalised (svd_qn finds no block)
+            chk("apply-cano", lambda: close(L.dense(ttno.apply(a, canonicalise=True)).ravel(), O @ da.ravel()))
+        else:
+            ZERO_SKIPS[0] += 1
         chk("apply-apply", lambda: close(L.dense(ttno.apply(ttno.apply(a))).ravel(), O @ (O @ da.ravel())))
         chk("expectation", lambda: close(a.expectation(ttno), float(da.ravel() @ (O @ da.ravel()))))
         chk("expectation-complex", lambda: close(complex(ac.expectation(ttno)), complex(dac.ravel().conj() @ (O @ dac.ravel()))))
@@ -564,7 +568,7 @@ def main():
         for k, (name, msg) in enumerate(fails):
             failures.append({"check": name, "spec": ms, "err": msg, "rank": k, "first": fails[0][0]})
     L.emit({"checked": checked + CONTRACT["n"], "specs_run": nspec, "skipped": skipped, "failures": failures,
-            "qn2_specs_run": nqn2, "contract_checks": CONTRACT["n"], "contract_worst": CONTRACT["worst"]}, payload.get("out"))
+            "qn2_specs_run": nqn2, "zero_result_skips": ZERO_SKIPS[0], "contract_checks": CONTRACT["n"], "contract_worst": CONTRACT["worst"]}, payload.get("out"))
 
 
 if __name__ == "__main__":
